@@ -352,7 +352,8 @@ def run_check(ck, root):
                 nd += 1
                 fam = s['specs'][0]['family']
                 var = {'viral': 'viral_registry', 'errname': 'exceptions_dataset_output', 'tp': 'time_period_representation', 'parse': 'parser_state'}.get(fam, 'unknown')
-                kinds = '+'.join(sorted({sp['kind'] for j, sp in enumerate(s['specs']) if j != d['call'] and sp['kind'] in ('run', 'semantic_analysis')}) or ['run'])
+                # the interfering writer is not observable under free running threads: name one kind (run before semantic_analysis)
+                kinds = (sorted({sp['kind'] for j, sp in enumerate(s['specs']) if j != d['call'] and sp['kind'] in ('run', 'semantic_analysis')}) or ['run'])[0]
                 ck.violation('shared-global:%s:%s<-%s' % (var, s['specs'][d['call']]['kind'], kinds), {'mode': 'stress', 'specs': s['specs'], 'diff': d},
                              'stress with switch interval 1e-6: call %d differs from alone: %s vs %s' % (d['call'], d['solo'][:120], d['got'][:120]))
         ck.note('stress', {'groups': len(st), 'rounds_each': 6, 'differing_calls': nd})
